@@ -537,6 +537,9 @@ class RepozoReplayer:
             dec = 'refused' if refused else 'raised'
         else:
             dec = 'nochange' if not new else ('full' if any(n.endswith(('.fs', '.fsz')) for n in new) else 'incr')
+        if dec == 'nochange' and res['dec'] == 'full' and o['killold'] and out == 'ok':
+            dec = 'full'          # delete_old_backups can remove the file just written (a full backup of the same second
+            #                       with a later name stays): what the directory holds is compared below
         if dec != res['dec']:
             if dec in ('full', 'incr'):
                 self.snaps.setdefault(run, snap)
@@ -551,7 +554,7 @@ class RepozoReplayer:
                                o, t, 'decided ' + dec if dec != 'raised' else 'raised', '' if dec != 'raised' else ' %s: %s' % (type(exc).__name__, exc),
                                res['dec'], res['why']))
         expect = None
-        if dec in ('full', 'incr'):
+        if dec in ('full', 'incr') and new:
             expect = (t, (2 if dec == 'full' else 0) + (1 if o['gzip'] else 0))
         self.check_repo(state, new=expect or (t, -1), run=run)
         if 'tmp.tmp' in os.listdir(self.repo):
@@ -559,7 +562,7 @@ class RepozoReplayer:
         # recovery as of now right after every backup: a failure is then reported with the run at fault
         rec = self._n(state, 'obs')['recover']
         if dec != 'refused' and len(rec) >= t:
-            self.recover_obs(t, rec[t - 1], state)
+            self._recover_variant(t, rec[t - 1], 'r', state)
 
     def short_form(self, secs):
         """The truncated date that names exactly this instant, or None (1 s clock)."""
@@ -602,7 +605,7 @@ class RepozoReplayer:
         ip = out_path + '.index'
         return out, data, (ip if os.path.exists(ip) else None), None
 
-    def recover_obs(self, d, x, state):
+    def recover_obs(self, d, x, state, plain_done=False):
         """Recovery as of clock second d in the variants the model tabulates: r (full date form), rw (with -w),
         rs (truncated date form).  An intact repository gets one seeded variant per visit (all of them when the
         replay asks for it), a damaged one the plain and the verifying recovery."""
@@ -617,7 +620,43 @@ class RepozoReplayer:
         else:
             variants = ['r', 'rw']
         for v in variants:
-            self._recover_variant(d, x, v, state)
+            if not (plain_done and v == 'r'):
+                self._recover_variant(d, x, v, state)
+
+    def _judge(self, out, data, ip, exc, want, where):
+        """What the property says about one recovery: None (fine / nothing demanded) or (kind, text)."""
+        k = want['k']
+        if k not in ('snap', 'snap-or-refuse', 'refuse'):
+            return None
+        if out != 'ok':
+            if k == 'snap':
+                return ('refused', '%s failed (%s: %s); the repository holds the backup of run %d' % (
+                    where, type(exc).__name__, exc, want['run']))
+            return None
+        if k == 'refuse':
+            return ('wrong-bytes', '%s reported success with %r although no backup can be rebuilt' % (where, self.describe(data)))
+        snap = self.snaps[want['run']]
+        if snap != self.cat(want['v']):
+            raise Mismatch('conformance', {'clause': 'source', 'what': 'snapshot'},
+                           'the committed part at run %d was not %r' % (want['run'], want['v']))
+        if data != snap:
+            return ('wrong-bytes', '%s gave %d bytes %r; the committed part of the data file at run %d was %d bytes %r' % (
+                where, len(data), self.describe(data), want['run'], len(snap), self.describe(snap)))
+        if want['ix'] == 'any':
+            return None
+        if ip is None:
+            return ('no-index', '%s restored no index' % where)
+        t = self._index_unusable(ip, data)
+        if t:
+            return ('wrong-index', '%s: %s' % (where, t))
+        t = self._opens(data)
+        if t:
+            return ('unusable-index', '%s: %s' % (where, t))
+        return None
+
+    def _where(self, d, v):
+        return 'recover as of second %d%s%s' % (d, ' (with -w)' if v == 'rw' else '',
+                                                ' (date given as %s)' % self.short_form(self.run_time(d)) if v == 'rs' else '')
 
     def _recover_variant(self, d, x, v, state):
         r, want = x[v], x['want']
@@ -625,55 +664,41 @@ class RepozoReplayer:
         ctx = self._n(state, 'obs')['ctx']
         res = self._n(state, 'res')
         intact = dmg['kind'] == 'none'
-        wv = v == 'rw'
-        form = 'short' if v == 'rs' else 'full'
-        out, data, ip, exc = self._recover(d, state, form=form, withverify=wv)
-        if dmg['t'] != 0 and wv:
+        out, data, ip, exc = self._recover(d, state, form='short' if v == 'rs' else 'full', withverify=v == 'rw')
+        if dmg['t'] != 0 and v == 'rw':
             self.counts['recover_w_damaged'] = self.counts.get('recover_w_damaged', 0) + 1
+        shared = bool(ctx['shared'])
         if intact:
             basis = (res['dec'] + '/' + res['why']) if res['act'] == 'backup' and d == state['now'] else 'earlier-run'
-            base = {'clause': 'recover', 'damage': 'none', 'last_run': basis, 'shared_stamp': bool(ctx['shared'])}
+            base = {'clause': 'recover', 'damage': 'none', 'last_run': basis, 'shared_stamp': shared}
         else:
             base = {'clause': 'recover', 'damage': dmg['kind'], 'target': ctx['target'], 'place': ctx['place'],
-                    'older_chain': bool(ctx['older'])}
-        if wv:
-            base['withverify'] = True
-        if form == 'short':
-            base['date'] = 'short'
-        where = 'recover as of second %d%s%s' % (d, ' (with -w)' if wv else '', ' (date given as %s)' % self.short_form(self.run_time(d)) if form == 'short' else '')
+                    'older_chain': bool(ctx['older']), 'shared_stamp': shared}
+        where = self._where(d, v)
         # -- property --
-        k = want['k']
-        bad = None
-        if k in ('snap', 'snap-or-refuse', 'refuse') and not self.tainted:
-            if out != 'ok':
-                if k == 'snap':
-                    bad = ('refused', '%s failed (%s: %s); the repository holds the backup of run %d' % (
-                        where, type(exc).__name__, exc, want['run']))
-            elif k == 'refuse':
-                bad = ('wrong-bytes', '%s reported success with %r although no backup can be rebuilt' % (where, self.describe(data)))
-            else:
-                snap = self.snaps[want['run']]
-                if snap != self.cat(want['v']):
-                    raise Mismatch('conformance', {'clause': 'source', 'what': 'snapshot'},
-                                   'the committed part at run %d was not %r' % (want['run'], want['v']))
-                if data != snap:
-                    bad = ('wrong-bytes', '%s gave %d bytes %r; the committed part of the data file at run %d was %d bytes %r' % (
-                        where, len(data), self.describe(data), want['run'], len(snap), self.describe(snap)))
-                elif want['ix'] != 'any':
-                    if ip is None:
-                        bad = ('no-index', '%s restored no index' % where)
-                    else:
-                        t = self._index_unusable(ip, data)
-                        if t:
-                            bad = ('wrong-index', '%s: %s' % (where, t))
-                        else:
-                            t = self._opens(data)
-                            if t:
-                                bad = ('unusable-index', '%s: %s' % (where, t))
+        if not self.tainted:
+            bad = self._judge(out, data, ip, exc, want, where)
+            if bad and v != 'r' and intact:
+                # is it this variant, or is the plain recovery of that date wrong as well?
+                po, pd, pip, pe = self._recover(d, state)
+                ip = None if ip is None else False            # the output pair on disk is the plain recovery's now
+                pbad = self._judge(po, pd, pip, pe, want, self._where(d, 'r'))
+                if pbad:
+                    self._prop(dict(base, got=pbad[0]), pbad[1])       # reported as the plain recovery's
+                    self.tainted = True
+                    bad = None
+                elif v == 'rw':
+                    base['withverify'] = True
+                else:
+                    base = {'clause': 'recover', 'damage': 'none', 'date': 'short', 'shared_stamp': shared}
+            elif bad and v == 'rw':
+                base['withverify'] = True
             if bad:
                 self._prop(dict(base, got=bad[0]), bad[1])
-                if intact and form == 'full':
+                if intact and v == 'r':
                     self.tainted = True
+        if ip is False:
+            return out
         # -- conformance --
         sig = {'clause': 'recover', 'what': 'outcome', 'damage': dmg['kind'], 'variant': v, 'spec': r['out'], 'impl': out}
         # with a file missing, "no files" and any other refusal are the same answer
@@ -723,9 +748,7 @@ class RepozoReplayer:
         out, exc = self._call('verify', now=self.run_time(state['now']) + self.rng.choice((0, 1, 5000)), quick=bool(q))
         got = 'ok' if out == 'ok' else 'fail'
         base = {'clause': 'verify', 'damage': dmg['kind'], 'target': ctx['target'], 'place': ctx['place'],
-                'older_chain': bool(ctx['older'])}
-        if dmg['kind'] == 'none':
-            base['shared_stamp'] = bool(ctx['shared'])
+                'older_chain': bool(ctx['older']), 'shared_stamp': bool(ctx['shared'])}
         mode = 'quick' if q else 'full'
         if x['must'] != 'any' and got != x['must']:
             if got == 'ok':
@@ -742,9 +765,8 @@ class RepozoReplayer:
         obs = self._n(state, 'obs')
         rec = obs['recover']
         for d in range(1, len(rec) + 1):
-            if skip_now and d == state['now']:
-                continue          # made by backup_step already
-            self._query(self.recover_obs, d, rec[d - 1], state)
+            # the plain recovery as of now was made by backup_step already
+            self._query(self.recover_obs, d, rec[d - 1], state, skip_now and d == state['now'])
         ver = obs['verify']
         for q in (False, True):
             self._query(self.verify_obs, q, ver[q], state)
